@@ -118,6 +118,10 @@ func (r *Reader) readRecord() (*record, error) {
 	// Read payload
 	data := make([]byte, length)
 	if _, err := io.ReadFull(r.reader, data); err != nil {
+		if err == io.EOF {
+			// A header without any payload byte is a cut tail, not a clean end
+			err = io.ErrUnexpectedEOF
+		}
 		return nil, err
 	}
 
@@ -293,6 +297,16 @@ func ReplayWALFile(path string, handler EntryHandler) (*RecoveryStats, error) {
 		if err != nil {
 			if err == io.EOF {
 				// Reached the end of the file
+				break
+			}
+
+			// A record that cannot be read (tail cut inside a record, checksum
+			// or header damage, fragments without an end) ends the replay of
+			// this file: everything written before it has been delivered, and
+			// nothing behind the damage can be trusted. This is not a failure
+			// of the replay - other files are unaffected.
+			if err != nil {
+				stats.EntriesSkipped++
 				break
 			}
 
